@@ -67,6 +67,7 @@ type Network struct {
 	Env     Environment
 	nextEph int
 	ReadOps int // read operations performed on any socket
+	ReadLog [][]byte // every datagram a UDP read returned, in order
 	// HostIPs are the addresses of the simulated host (a bind to another address fails).
 	Errors []string
 }
@@ -366,6 +367,7 @@ func readUDP(n *Network, s *sockState, b []byte) (int, *net.UDPAddr, error) {
 		d := s.queue[0]
 		s.queue = s.queue[1:]
 		k := copy(b, d.data)
+		n.ReadLog = append(n.ReadLog, append([]byte{}, d.data...))
 		e.note(e.cur, "read:"+string(d.data))
 		return k, d.from, nil
 	case s.rst:
